@@ -274,6 +274,13 @@ def _run_q(case, out):
             tol = Fraction(1, 10**12) if same_base else Fraction(1, 10**5) * max(2 * deg, 1)
             scale = max(abs(si[i]), abs(si[j]))
             tie = abs(si[i] - si[j]) <= tol * scale
+            # comparing converts one operand into the other's unit: a converted magnitude that
+            # underflows or overflows makes the pair a float-range case, not a decided one
+            sizes_ij = (c.sizes.unit_size(a.unit, approx_mixed=True), c.sizes.unit_size(b.unit, approx_mixed=True))
+            for sv in (si[i], si[j]):
+                for su in sizes_ij:
+                    if sv != 0 and su and not (Fraction(1, 10**290) < abs(sv / su) < Fraction(10) ** 290):
+                        tie = True
             if tie:
                 all_clear = False
             res = {}
@@ -442,6 +449,8 @@ def _run_t(case, out):
             pfx = rest[0] if rest else ""
             if isinstance(v, bool) or not isinstance(v, (int, float)) or v != v or v in (float("inf"), float("-inf")):
                 raise ValueError
+            if v != 0 and abs(v) < 1e-290:
+                raise ValueError  # subnormal readings: multiplying the prefix in rounds them to zero
             u = c.snap.units[scale]
             if u.dimension is not m.Temperature or (pfx and pfx not in c.snap.prefixes):
                 raise ValueError
@@ -473,7 +482,9 @@ def _run_t(case, out):
                 continue
             for name in ("==", "r=="):
                 if res[name] is True and a.unit is b.unit and hash(a) != hash(b):
-                    out.fail("C12:hash:same-unit-unprefixed", f"{a!r} == {b!r} but hashes differ")
+                    kind = "same-unit-same-number" if Fraction(a.magnitude) == Fraction(b.magnitude) else (
+                        "same-unit-prefixed" if a.unit.prefix is not m.IdentityPrefix else "same-unit-unprefixed")
+                    out.fail(f"C12:hash:{kind}", f"{a!r} == {b!r} but hashes differ")
             if tie:
                 out.classes.append("t:tie")
                 continue
